@@ -21,6 +21,11 @@ Decided:
   FLOW-C28f   rebuild_indexes truncates the file no lower than header.footer_offset: everything between the payload end
               and the footer that it does not rewrite itself (the sketch track, replay segments) stays on disk; the
               set_len argument derives from max(header.footer_offset, payload end).
+  COVER-C28g  a handle that loads the vector index from disk finds it where the TOC says: the file offsets of every vector
+              manifest collection (IndexManifests.vec, SegmentCatalog.vec_segments) are moved by
+              adjust_offsets_after_wal_growth (anchor computation shared with COVER-C02d / COVER-C09e). Otherwise a
+              read-only open or a recovery between a WAL growth and the next commit decodes garbage, the error is
+              swallowed, and the reopened handle answers from an empty index.
 Not decided: equality of query results before/after reopen (values); Tantivy's own persistence (external crate)."""
 from . import lib
 from .facts import Place, op_place
@@ -122,6 +127,9 @@ def _truncate(ctx, F, rule='FLOW-C28f'):
 
 
 def run(ctx):
+    from . import c09
+    c09.offsets_moved(ctx, ctx.facts(), 'COVER-C28g', lambda a: 'vec' in a[1], 'vector', 2,
+                      'a handle that loads the index from disk before the next commit (read-only open, crash recovery) decodes garbage and answers from an empty index', 'vec-offset-not-shifted')
     ctx.rule('GUARD-C28a', 'incremental Tantivy arm only on !tantivy_dirty; dirty edge rebuilds the engine')
     ctx.rule('AGREE-C28b', 'in-memory index installed at commit == decode(bytes persisted); reopen decodes the same bytes with the same decoder')
     ctx.rule('MPT-C28c', 'instant index marks tantivy_dirty')
